@@ -21,8 +21,8 @@ theorem feed_invariant (ps : List Bytes) (hwf : WF ps) (cs : List Bytes) (r : By
     (h : cs.flatten ++ r = stream ps) :
     ∃ out qs st, decompress cs = .ok (out, st) ∧ ps = out ++ qs ∧
       cs.flatten = stream out ++ st.pending ∧ st.Shaped ∧ st.pending ++ r = stream qs := by
-  obtain ⟨st, out, qs, hd, hq, hr⟩ := decompress_spec hwf h
-  have hwfq : WF qs := WF_append_right (hq ▸ hwf)
+  obtain ⟨st, out, qs, hd, hq, hr⟩ := decompress_spec (WF_len hwf) h
+  have hwfq : WFlen qs := WFlen_append_right (hq ▸ WF_len hwf)
   obtain ⟨hp, hs⟩ := Rel_pending hwfq hr
   refine ⟨out, qs, st, hd, hq, ?_, hs, hp⟩
   apply List.append_cancel_right (bs := r)
@@ -36,16 +36,47 @@ example : decompress [[0, 0], [0], [], [2, 0xaa], [0xbb, 0, 0]] =
 example : ([[0, 0], [0], [], [2, 0xaa], [0xbb, 0, 0]] : List Bytes).flatten ++ [0, 1, 0xcc] =
     stream [[0xaa, 0xbb], [0xcc]] := by decide
 
-/-- **decompress_chunking_independent.**  For every well-formed stream and every chunking of it, the
-byte strings handed to the codec are exactly the stream's payloads, in order, and the final state
-is idle (`_size = 0`, `_partial_len = b''`, `_buffer is None`; `_pos` is dead in that state). -/
-theorem decompress_chunking_independent (ps : List Bytes) (hwf : WF ps) (cs : List Bytes)
+/-- **pos_dead.**  `_pos` is dead state while `_buffer is None`: two states that agree on `_size`,
+`_partial_len` and `_buffer`, and on `_pos` whenever there is a buffer (`St.Eqv`), behave identically
+on **every** sequence of chunks — the same frames are handed to the codec, the same error (if any)
+is raised, and the final states are again equivalent. -/
+theorem pos_dead (a b : St) (h : a.Eqv b) (cs : List Bytes) (acc : List Bytes) :
+    match feedAll a acc cs, feedAll b acc cs with
+    | .ok (o, s), .ok (o', s') => o = o' ∧ s.Eqv s'
+    | .error e, .error e' => e = e'
+    | _, _ => False :=
+  feedAll_eqv cs a b acc h
+
+/-- the instance named in the property: a left-over `_pos` after a buffered frame -/
+theorem pos_dead_no_buffer (size : Nat) (pl : Bytes) (pos₁ pos₂ : Nat) (cs : List Bytes) :
+    match feedAll ⟨size, pl, none, pos₁⟩ [] cs, feedAll ⟨size, pl, none, pos₂⟩ [] cs with
+    | .ok (o, s), .ok (o', s') => o = o' ∧ s.Eqv s'
+    | .error e, .error e' => e = e'
+    | _, _ => False :=
+  feedAll_eqv cs _ _ [] ⟨rfl, rfl, rfl, fun h => absurd rfl h⟩
+
+-- non-vacuity: the same two chunks fed to idle states with different stale `_pos`
+example : feedAll ⟨0, [0], none, 7⟩ [] [[0, 0], [1, 0xaa, 0]] = .ok ([[0xaa]], ⟨0, [0], none, 7⟩) := by decide
+example : feedAll ⟨0, [0], none, 2⟩ [] [[0, 0], [1, 0xaa, 0]] = .ok ([[0xaa]], ⟨0, [0], none, 2⟩) := by decide
+
+/-- chunking independence for payload lists that may contain **empty** payloads (`WFlen`): used for
+the property theorem below and for the malformed-stream theorems -/
+theorem decompress_frames_any (ps : List Bytes) (hwf : WFlen ps) (cs : List Bytes)
     (h : cs.flatten = stream ps) :
-    ∃ st, decompress cs = .ok (ps, st) ∧ st.Idle := by
+    ∃ st, decompress cs = .ok (ps, st) ∧ st.Eqv St.init := by
   obtain ⟨st, out, qs, hd, hq, hr⟩ := decompress_spec (r := []) hwf (by simpa using h)
   obtain ⟨hnil, hidle⟩ := Rel_end hr
   subst hnil
-  exact ⟨st, by simpa [hq] using hd, hidle⟩
+  exact ⟨st, by simpa [hq] using hd, (Idle_iff_Eqv_init st).mp hidle⟩
+
+/-- **decompress_chunking_independent.**  For every well-formed stream and every chunking of it, the
+byte strings handed to the codec are exactly the stream's payloads, in order, and the final state
+equals the initial state up to the dead `_pos` (`St.Eqv`, see `pos_dead`: a decompressor left in
+that state behaves on any further input exactly like a fresh one). -/
+theorem decompress_chunking_independent (ps : List Bytes) (hwf : WF ps) (cs : List Bytes)
+    (h : cs.flatten = stream ps) :
+    ∃ st, decompress cs = .ok (ps, st) ∧ st.Eqv St.init :=
+  decompress_frames_any ps (WF_len hwf) cs h
 
 -- non-vacuity: three chunkings of the same two-frame stream, one with 1-byte and empty chunks
 example : decompress [[0, 0, 0, 2, 0xaa, 0xbb, 0, 0, 0, 1, 0xcc]] =
@@ -72,7 +103,7 @@ same frames (hence the same output bytes and the same reported length). -/
 theorem decompress_same_for_all_chunkings (ps : List Bytes) (hwf : WF ps) (cs₁ cs₂ : List Bytes)
     (h₁ : cs₁.flatten = stream ps) (h₂ : cs₂.flatten = cs₁.flatten) :
     ∃ st₁ st₂, decompress cs₁ = .ok (ps, st₁) ∧ decompress cs₂ = .ok (ps, st₂) ∧
-      st₁.Idle ∧ st₂.Idle := by
+      st₁.Eqv St.init ∧ st₂.Eqv St.init := by
   obtain ⟨st₁, hd₁, hi₁⟩ := decompress_chunking_independent ps hwf cs₁ h₁
   obtain ⟨st₂, hd₂, hi₂⟩ := decompress_chunking_independent ps hwf cs₂ (h₂.trans h₁)
   exact ⟨st₁, st₂, hd₁, hd₂, hi₁, hi₂⟩
@@ -88,7 +119,7 @@ theorem compress_decompress_id (enc dec : Bytes → Bytes) (hdec : ∀ x, dec (e
     (hfit : ∀ blk ∈ blocksOf (blockSize / itemsize) items, (enc blk.flatten).length < 2 ^ 32) :
     ∃ pieces, compress enc itemsize blockSize items = .ok pieces ∧
       ∀ cs : List Bytes, cs.flatten = pieces.flatten →
-        ∃ frames st, decompress cs = .ok (frames, st) ∧ st.Idle ∧
+        ∃ frames st, decompress cs = .ok (frames, st) ∧ st.Eqv St.init ∧
           output dec frames = items.flatten ∧ bytesOut dec frames = items.flatten.length := by
   have hpos : 0 < blockSize / itemsize := Nat.div_pos hb hi
   have hne0 : blockSize / itemsize ≠ 0 := by omega
@@ -142,7 +173,7 @@ theorem truncated_stream_detected (ps : List Bytes) (hwf : WF ps) (cs : List Byt
     ∃ out qs st, decompress cs = .ok (out, st) ∧ ps = out ++ qs ∧ qs ≠ [] ∧
       ∀ dec : Bytes → Bytes, bytesOut dec out + bytesOut dec qs = bytesOut dec ps ∧
         ((∀ q ∈ qs, dec q ≠ []) → bytesOut dec out < bytesOut dec ps) := by
-  obtain ⟨st, out, qs, hd, hq, hrel⟩ := decompress_spec hwf h
+  obtain ⟨st, out, qs, hd, hq, hrel⟩ := decompress_spec (WF_len hwf) h
   have hqne : qs ≠ [] := Rel_owed hrel hr
   refine ⟨out, qs, st, hd, hq, hqne, ?_⟩
   intro dec
@@ -158,5 +189,210 @@ example : decompress [[0, 0, 0, 2, 0xaa], [0xbb, 0, 0, 0, 1]] =
     .ok ([[0xaa, 0xbb]], ⟨1, [], some [], 0⟩) := by decide
 example : ([[0, 0, 0, 2, 0xaa], [0xbb, 0, 0, 0, 1]] : List Bytes).flatten ++ [0xcc] =
     stream [[0xaa, 0xbb], [0xcc]] := by decide
+
+/-! ### the linear-time machine of the driver -/
+
+/-- **decompressF_eq.**  The machine the driver runs (buffer kept as reversed segments, linear in the
+input) computes exactly `decompress`: same frames, same error, and its final state stands for the
+same simple state. -/
+theorem decompressF_eq (cs : List Bytes) :
+    (match decompressF cs with
+      | .ok (o, s) => .ok (o, s.abs)
+      | .error e => .error e) = decompress cs :=
+  feedAllF_abs cs StF.init []
+
+example : decompressF [[0, 0, 0], [2, 0xaa], [], [0xbb, 0, 0, 0, 1]] =
+    .ok ([[0xaa, 0xbb]], ⟨1, [], some [[]], 0⟩) := by decide
+
+/-! ### malformed streams -/
+
+/-- **zero_payload_handed_over.**  A frame whose length prefix is 0 does not confuse the framing:
+for payload lists that may contain empty payloads, under every chunking, the codec is handed every
+payload in order — the empty ones as empty byte strings, at once, even when the chunk ends right
+after the prefix — and the next 4 bytes are read as the next prefix.  (Real blosc rejects an empty
+frame; the framing itself is still chunking independent.) -/
+theorem zero_payload_handed_over (ps : List Bytes) (hwf : WFlen ps) (cs : List Bytes)
+    (h : cs.flatten = stream ps) :
+    ∃ st, decompress cs = .ok (ps, st) ∧ st.Eqv St.init :=
+  decompress_frames_any ps hwf cs h
+
+/-- with a codec that decodes the empty frame to nothing, `be32 0` is simply skipped -/
+theorem zero_payload_skipped (dec : Bytes → Bytes) (hdec : dec [] = []) (ps : List Bytes) :
+    output dec ps = output dec (ps.filter (· ≠ [])) := by
+  induction ps with
+  | nil => rfl
+  | cons p ps ih =>
+    by_cases hp : p = []
+    · subst hp
+      simp only [output, List.flatMap_cons, hdec, List.nil_append] at ih ⊢
+      simpa using ih
+    · simp only [output, List.flatMap_cons] at ih ⊢
+      simp [hp, ih]
+
+example : WFlen [[], [0xaa], []] := by decide
+example : stream [[], [0xaa], []] = [0, 0, 0, 0, 0, 0, 0, 1, 0xaa, 0, 0, 0, 0] := by decide
+example : decompress [[0, 0, 0, 0], [0, 0, 0], [1, 0xaa, 0], [0, 0, 0]] =
+    .ok ([[], [0xaa], []], St.init) := by decide
+
+/-- **truncated_inside_frame.**  The chunks cover the complete frames `done` and then a proper,
+non-empty part `t` of the next frame (`t ++ r = frame p`, both non-empty) — the stream is cut inside
+a length prefix or inside a payload.  Then, under every chunking: no error is raised, the codec is
+handed exactly the complete frames (so `bytesout` is the sum over the complete frames), and the final
+state is **not** idle: it holds exactly `t` — as `_partial_len` when the cut is inside the prefix
+(`t` shorter than 4 bytes), as `be32 _size` plus the buffer contents with `_size = len p` when the cut
+is inside the payload. -/
+theorem truncated_inside_frame (done : List Bytes) (p : Bytes) (hwf : WFlen (done ++ [p]))
+    (t r : Bytes) (ht : t ≠ []) (hr : r ≠ []) (hsplit : t ++ r = frame p)
+    (cs : List Bytes) (h : cs.flatten = stream done ++ t) :
+    ∃ st, decompress cs = .ok (done, st) ∧ st.pending = t ∧ st.Shaped ∧ ¬ st.Idle ∧
+      (t.length < 4 → st.size = 0 ∧ st.buffer = none ∧ st.partialLen = t) ∧
+      (4 ≤ t.length → st.size = p.length ∧ st.buffer = some (t.drop 4) ∧ st.partialLen = []) := by
+  have hfull : cs.flatten ++ r = stream (done ++ [p]) := by
+    rw [h, stream_append, List.append_assoc, hsplit]
+    simp [stream]
+  obtain ⟨st, out, qs, hd, hq, hrel⟩ := decompress_spec hwf hfull
+  have hwfq : WFlen qs := WFlen_append_right (hq ▸ hwf)
+  obtain ⟨hp, hshape⟩ := Rel_pending hwfq hrel
+  have hqne : qs ≠ [] := Rel_owed hrel hr
+  have hcons : cs.flatten = stream out ++ st.pending := by
+    apply List.append_cancel_right (bs := r)
+    rw [hfull, hq, stream_append, List.append_assoc, hp]
+  -- the frames handed over are exactly the complete ones
+  have hout : out = done := by
+    rcases List.append_eq_append_iff.mp hq with ⟨as, h1, h2⟩ | ⟨bs, h1, h2⟩
+    · cases as with
+      | nil => simpa using h1
+      | cons a as' =>
+        exfalso
+        simp only [List.cons_append, List.cons.injEq] at h2
+        have : as' ++ qs = [] := h2.2.symm
+        exact hqne (List.append_eq_nil_iff.mp this).2
+    · cases bs with
+      | nil => simpa using h1.symm
+      | cons x bs' =>
+        exfalso
+        rw [h2] at hrel
+        have hshort := Rel_pending_short hrel
+        have : st.pending = frame x ++ (stream bs' ++ t) := by
+          apply List.append_cancel_left (as := stream out)
+          rw [← hcons, h, h1, stream_append, stream_cons]
+          simp [frame]
+        rw [this] at hshort
+        simp only [List.length_append] at hshort
+        omega
+  subst hout
+  have hpend : st.pending = t := by
+    apply List.append_cancel_left (as := stream out)
+    rw [← hcons, h]
+  refine ⟨st, hd, hpend, hshape, ?_, ?_, ?_⟩
+  · intro hidle
+    obtain ⟨_, h2, h3⟩ := hidle
+    apply ht
+    rw [← hpend]
+    simp [St.pending, h3, h2]
+  · intro hlt
+    cases hb : st.buffer with
+    | none =>
+      simp only [St.Shaped, hb] at hshape
+      simp only [St.pending, hb] at hpend
+      exact ⟨hshape.1, rfl, hpend⟩
+    | some b =>
+      exfalso
+      simp only [St.pending, hb] at hpend
+      have := congrArg List.length hpend
+      simp [be32_length] at this
+      omega
+  · intro hge
+    cases hb : st.buffer with
+    | none =>
+      exfalso
+      simp only [St.Shaped, hb] at hshape
+      simp only [St.pending, hb] at hpend
+      rw [hpend] at hshape
+      omega
+    | some b =>
+      simp only [St.Shaped, hb] at hshape
+      simp only [St.pending, hb] at hpend
+      have hb4 : t.drop 4 = b := by rw [← hpend]; exact List.drop_left' (be32_length _)
+      have hpre : be32 st.size = be32 p.length := by
+        have e : be32 st.size ++ (b ++ r) = be32 p.length ++ p := by
+          rw [← List.append_assoc, hpend, hsplit]; rfl
+        exact (List.append_inj e (by simp [be32_length])).1
+      have hsz : st.size = p.length := by
+        have h1 := unpack_be32 st.size hshape.2.1
+        have h2 := unpack_be32 p.length (hwf p (by simp))
+        rw [hpre, h2] at h1
+        exact (Except.ok.inj h1).symm
+      exact ⟨hsz, by rw [hb4], hshape.2.2.1⟩
+
+-- non-vacuity: cut after 2 prefix bytes; cut after 1 of 2 payload bytes
+example : decompress [[0, 0, 0, 1], [0xcc, 0], [0]] = .ok ([[0xcc]], ⟨0, [0, 0], none, 1⟩) := by decide
+example : decompress [[0, 0, 0, 1], [0xcc, 0], [0, 0, 2, 0xaa]] =
+    .ok ([[0xcc]], ⟨2, [], some [0xaa], 1⟩) := by decide
+
+/-- **trailing_garbage_ignored.**  1–3 stray bytes after the last frame are **not** detected: under
+every chunking the frames handed to the codec (hence the output and the returned length) are those of
+the stream without the garbage; the stray bytes stay behind in `_partial_len`. -/
+theorem trailing_garbage_ignored (ps : List Bytes) (hwf : WFlen ps) (g : Bytes) (hg : g ≠ [])
+    (hg4 : g.length < 4) (cs : List Bytes) (h : cs.flatten = stream ps ++ g) :
+    ∃ st, decompress cs = .ok (ps, st) ∧ st.size = 0 ∧ st.buffer = none ∧ st.partialLen = g := by
+  obtain ⟨n, hn, hbe⟩ := be32_surj (g ++ List.replicate (4 - g.length) 0) (by simp; omega)
+  have hsplit : g ++ (List.replicate (4 - g.length) 0 ++ List.replicate n 0) =
+      frame (List.replicate n (0 : UInt8)) := by
+    simp only [frame, List.length_replicate, ← List.append_assoc, hbe]
+  have hwf' : WFlen (ps ++ [List.replicate n (0 : UInt8)]) := by
+    intro q hq
+    rcases List.mem_append.mp hq with hq | hq
+    · exact hwf q hq
+    · simp only [List.mem_singleton] at hq
+      subst hq
+      simpa using hn
+  obtain ⟨st, hd, _, _, _, hpre, _⟩ := truncated_inside_frame ps _ hwf' g _ hg
+    (by simp; omega) hsplit cs h
+  exact ⟨st, hd, hpre hg4⟩
+
+example : decompress [[0, 0, 0, 1, 0xcc, 9], [9]] = .ok ([[0xcc]], ⟨0, [9, 9], none, 0⟩) := by decide
+
+/-! ### compress: keyword arguments -/
+
+/-- **compressK_shuffle_error.**  An unknown `shuffle` keyword raises `ValueError` before the codec
+module is touched (no `set_nthreads`, no `set_blocksize`, no `blosc.compress`, nothing yielded). -/
+theorem compressK_shuffle_error (enc : CodecArgs → Bytes → Bytes) (kw : Kwargs) (s : String)
+    (itemsize : Nat) (items : List Bytes) (h : kw.shuffle = some (.other s)) :
+    compressK enc kw itemsize items = .error .valueError := by
+  simp [compressK, codecArgs, h, shuffleConst]
+
+/-- **compressK_spec.**  With a valid `shuffle`, `compress(data, **kwargs)` is `compress` with block
+size `compression_block_size` (default 2^22) and the codec called with: `typesize` = the explicit
+keyword, or `data.itemsize` when absent/'auto'; `clevel` (default 1); `cname` (default 'zstd');
+`shuffle` ↦ blosc constant (default SHUFFLE); the remaining keywords untouched.  The block
+boundaries depend on `data.itemsize` only, never on `typesize`. -/
+theorem compressK_spec (enc : CodecArgs → Bytes → Bytes) (kw : Kwargs) (itemsize : Nat)
+    (items : List Bytes) (sh : Nat)
+    (hsh : shuffleConst (kw.shuffle.getD .shuffle) = .ok sh) :
+    let ca : CodecArgs := { typesize := kw.typesize.getD itemsize, clevel := kw.clevel.getD 1,
+                            shuffle := sh, cname := kw.cname.getD "zstd", extra := kw.extra }
+    let bs := kw.compressionBlockSize.getD (2 ^ 22)
+    compressK enc kw itemsize items =
+      match compress (enc ca) itemsize bs items with
+      | .error e => .error e
+      | .ok pieces => .ok { nthreads := kw.nthreads.getD 1,
+                            bloscBlockSize := kw.bloscBlockSize.getD (512 * 1024), args := ca,
+                            blocks := (blocksOf (bs / itemsize) items).map List.flatten,
+                            pieces := pieces } := by
+  simp only [compressK, codecArgs, hsh, compress]
+  split
+  · rfl
+  · cases framesOf _ _ <;> rfl
+
+-- non-vacuity: typesize 'auto' (absent) vs explicit, bitshuffle, an extra keyword passed through
+example : (compressK (fun _ => toyEnc) {} 2 [[1, 0], [2, 0]]).map (·.args) =
+    .ok ⟨2, 1, 1, "zstd", []⟩ := by decide
+example : (compressK (fun _ => toyEnc)
+      { typesize := some 7, shuffle := some .bitshuffle, compressionBlockSize := some 2,
+        extra := [("foo", "1")] } 2 [[1, 0], [2, 0]]).map (fun t => (t.args, t.blocks)) =
+    .ok (⟨7, 1, 2, "zstd", [("foo", "1")]⟩, [[1, 0], [2, 0]]) := by decide
+example : compressK (fun _ => toyEnc) { shuffle := some (.other "x") } 2 [[1, 0]] =
+    .error .valueError := by decide
 
 end AbacusVerif.Blsc
